@@ -15,6 +15,11 @@ Run-time readers (runtime_tie): every emitted descriptor is rebuilt in native me
 runtime/internal/runtime (DirectIfaceData, IfacePtrData; native copy); judged against the reference reflect (NumMethod, Method(i),
 PkgPath, Field(i).PkgPath) and the receiver-word rule; Model/TypeDesc.lean (where the uncommon part sits per kind, which kinds are
 direct-iface, StructType.PkgPath_) is compared with both sites.
+PtrToThis_ (ir_tie): for every pointer descriptor *T emitted in the module, T's PtrToThis_ must lead to it (defined pointer types
+Z15P<k> of 24 element shapes included) — llgo's reflect synthesises a second *T when it is nil; Go: PointerTo(T) is the type of &v.
+Field lookup (fbn_tie): (*structType).FieldByNameFunc / FieldByName of runtime/internal/lib/reflect are extracted verbatim from the working
+tree, compiled natively with the working tree's runtime/abi (harness/c15/fbn) and run on llgo-layout descriptors of generated struct
+embedding graphs (chains, shadowing, diamonds of any depth, cycles through pointers); judged against the reference reflect on the same types.
 e2e (e2e_tie): the compiled program itself (println only) calls methods of defined types of every kind through interfaces; its text
 must be the reference build's.
 """
@@ -137,6 +142,11 @@ DEF_KINDS = [
 DEF_MSETS = [0, 1, 2, 3]
 
 
+# element types of the defined pointer types Z15P<k> (package main)
+DEF_PTR_ELEMS = ["int", "string", "[]int", "z15node", "struct{ a int }", "*int", "Z15P0", "map[string]int", "func()", "chan int", "any", "[2]int",
+                 "p.T", "q.U", "z15IDer", "Z15D0_1", "float64", "[0]int", "struct{}", "**p.T", "p.Ptr", "unsafe.Pointer", "error", "[]Z15P3"]
+
+
 def def_name(k, m):
     return "Z15D%d_%d" % (k, m)
 
@@ -195,6 +205,16 @@ func z15b2i(b bool) int {
                          "\t\tif ok4 {", '\t\t\tprintln("e2e %s Set", pp.Set())' % nm, "\t\t}"]
             body.append("\t}")
             run.append((k, m, "\n".join(body)))
+    # ---- DEFINED POINTER types (type P *T) of every element shape: &v keeps *P alive, so the module holds the descriptors of
+    # both P and *P and P's PtrToThis_ must lead to *P (ir_tie, "reflect-ir:ptrtothis"); an alias of a pointer type for contrast
+    out.append("type Z15PA = *z15node")
+    keep = ["&z15pa"]
+    out.append("var z15pa Z15PA")
+    for k, under in enumerate(DEF_PTR_ELEMS):
+        out.append("type Z15P%d *%s" % (k, under))
+        out.append("var z15p%d Z15P%d" % (k, k))
+        keep.append("&z15p%d" % k)
+    out.append("var z15pKeep = []any{%s}" % ", ".join(keep))
     out += witness["decls"]
     # the boxed kinds and the witnesses first; a wrong receiver word of the direct kinds may make the program die
     order = sorted(run, key=lambda r: (0 if r[0] >= 18 else 1 if r[0] < 7 else 2, r[0], r[1]))
@@ -573,6 +593,13 @@ def run(ctx, args):
     ir_info = ir_tie(ctx, types_, descs, stats, corr_bad, oracle, nfixed, mshapes, modeld, envlines, oracle_e2e)
     spec_fail += ir_info.get("spec_failures", 0)
 
+    # ------------------------------------------------------------ (5) llgo's reflect field lookup, run natively, against the reference reflect
+    # (after everything else: its draws from ctx.rng do not disturb the generated types above)
+    fbn_info = fbn_tie(ctx, stats)
+    spec_fail += fbn_info.get("spec_failures", 0)
+    evaluations += fbn_info.get("lookups", 0)
+    ctx.coverage["reflect_field_lookup"] = fbn_info
+
     # ------------------------------------------------------------ verdict
     if corr_bad:
         ctx.log("correspondence mismatches: %d, first: %s" % (len(corr_bad), str(corr_bad[0])[:900]))
@@ -592,7 +619,8 @@ def run(ctx, args):
     ctx.coverage["not_covered"] = ("runtime/internal/lib/reflect and fmt at run time (Value get/set/convert, DeepEqual, method calls through reflect, fmt verbs), "
                                    "the pruning of method tables (checkReflect / filterAbiSymbol), field offsets and sizes (C08): no program importing reflect or fmt can be built by llgo in this sandbox. "
                                    "Of the run-time side only the descriptor READERS below reflect are exercised: runtime/abi (Uncommon, NumMethod, ExportedMethods, Methods, IsExported) and "
-                                   "runtime/internal/runtime DirectIfaceData/IfacePtrData natively on the emitted descriptors, and interface method calls / type assertions of a println-only compiled program")
+                                   "runtime/internal/runtime DirectIfaceData/IfacePtrData natively on the emitted descriptors, interface method calls / type assertions of a println-only compiled program, "
+                                   "and (*structType).FieldByName/FieldByNameFunc of runtime/internal/lib/reflect (verbatim copy run natively on llgo-layout descriptors of generated embedding graphs, fbn_tie)")
     ctx.coverage["trusted_base"] += [
         "reference Go toolchain's reflect (go1.24) run natively on the same generated source is the oracle for 'as Go does'",
         "hand-written Lean model of ssa/abi/type.go Str/TFlag/Kind and the table builders of ssa/abitype.go, tied by a differential run of the real ssa/abi (imported) and by reading llgo's emitted descriptor constants back from -O0 IR (vlib/irdesc.py: regular expressions over constant initialisers)",
@@ -600,8 +628,9 @@ def run(ctx, args):
         "vlib/irlayout.py (LLVM type sizes from the IR's own type definitions, x86-64 natural alignment) and harness/c15/native (rebuilds an emitted descriptor in native memory as "
         "struct{ <Go type named like the IR's header type>; UncommonType; [n]Method } via reflect.StructOf; a func value is one word natively and two in llgo, so offsets are compared per layout, not as raw bytes); "
         "the one-line rule of (*structType).Field (`if !abi.IsExported(name) { PkgPath = t.PkgPath_ }`) is re-stated in the loader, abi.IsExported itself is the real one",
+        "harness/c15/fbn: stand-ins for reflect's structType/StructField and the statements of (*structType).Field that do not need reflect.Type; the conversion of native reflect types to llgo-layout abi.StructType/PtrType descriptors (field names, embedded flags, element pointers)",
     ]
-    ctx.assumptions += ["only the compiler-emitted descriptors are examined; whether llgo's reflect library reads them as Go's reflect reads Go's is not checked"]
+    ctx.assumptions += ["only the compiler-emitted descriptors are examined; of llgo's reflect library only the field lookup (FieldByName/FieldByNameFunc, native copy) is run, everything else of it is not checked"]
     return ctx.finish("proof", {"evaluations": evaluations + ir_info.get("descriptors_compared", 0), "distinct_nontrivial": len(nontrivial),
                                "rule": "one evaluation = one generated type described by the real ssa/abi, by the model and by the reference toolchain's reflect, or one emitted descriptor read back from IR and compared; distinct by serialised type term",
                                "input_distribution": stats, "spec_failures_on_real_code": spec_fail, "correspondence_mismatches": len(corr_bad)})
@@ -738,6 +767,49 @@ def ir_tie(ctx, types_, descs, stats, corr_bad, oracle, nfixed, mshapes, modeld,
             li = [(unhexs(dd["IM"][k]), unhexs(dd["IM"][k + 1]).decode()) for k in range(0, len(dd["IM"]), 2)]
             if (e["imethods"] or []) != li:
                 corr_bad.append((i, types_[i][1], "IR imethod table of %s: emitted %s, expected %s" % (dd["sym"], e["imethods"], li)))
+    # ---- PtrToThis_: llgo's reflect goes from T to *T ((*rtype).ptrTo: PointerTo, New, Addr, method receivers) through T.PtrToThis_ and
+    # SYNTHESISES a new descriptor when it is nil.  Go: reflect.PointerTo(T) IS the type of &v.  So for every unnamed pointer
+    # descriptor P = *E emitted in the module, E.PtrToThis_ must lead to P (or to another unnamed pointer descriptor whose Elem is E:
+    # *closure and *func share the func type as Elem), and whatever PtrToThis_ points to must be an unnamed pointer type with Elem E.
+    # Only unnamed pointer types *X themselves leave it nil on purpose (so that *T does not drag in **T, ...): not judged.
+    pt_checked, pt_named_ptr, pt_bad = 0, 0, 0
+
+    def is_uptr(x):
+        return x is not None and x["kind"] == 22 and not x["tflag"] & 4
+
+    def pt_report(esym, psym, what):
+        nonlocal pt_bad
+        pt_bad += 1
+        if pt_bad <= 3:
+            ed = ir[esym]
+            ctx.report("reflect-ir:ptrtothis:%s" % (ed["str"] or b"?").decode(errors="replace")[:100], what,
+                       {"type_string": (ed["str"] or b"?").decode(errors="replace"), "symbol": esym,
+                        "declared": next(("type Z15P%d *%s; var v Z15P%d; any(&v)" % (k, u, k) for k, u in enumerate(DEF_PTR_ELEMS) if esym.endswith(".Z15P%d" % k)), "see type_string"), "kind": KINDS[ed["kind"]], "named": bool(ed["tflag"] & 4),
+                        "PtrToThis_": ed["ptrtothis"], "emitted_pointer_type": psym,
+                        "go": "reflect.PointerTo(T) == reflect.TypeOf(&v), reflect.New(T).Type() == reflect.TypeOf(&v) for var v T"})
+    for psym in sorted(ir):
+        pd = ir[psym]
+        if is_uptr(pd) and pd["elem"] in ir:
+            ed = ir[pd["elem"]]
+            if ed["ptrtothis"] == "?":
+                continue
+            if is_uptr(ed) and ed["ptrtothis"] is None:
+                stats["ir-tie:ptrtothis:nil-on-unnamed-pointer(by design)"] = stats.get("ir-tie:ptrtothis:nil-on-unnamed-pointer(by design)", 0) + 1
+                continue
+            pt_checked += 1
+            pt_named_ptr += 1 if ed["kind"] == 22 else 0
+            q = ed["ptrtothis"]
+            if q is None:
+                pt_report(pd["elem"], psym, "the descriptor of *T is emitted (%s) but T's PtrToThis_ is nil: llgo's reflect (ptrTo) synthesises a second, distinct *T for PointerTo/New/Addr" % psym)
+            elif q != psym and not (q in ir and is_uptr(ir[q]) and ir[q]["elem"] == pd["elem"]):
+                pt_report(pd["elem"], psym, "T's PtrToThis_ (%s) is not a descriptor of *T, although *T is emitted as %s" % (q, psym))
+    for esym in sorted(ir):
+        q = ir[esym]["ptrtothis"]
+        if q not in (None, "?") and q in ir and not (is_uptr(ir[q]) and ir[q]["elem"] == esym):
+            pt_report(esym, q, "PtrToThis_ points to %s, which is not an unnamed pointer type whose Elem is this type" % q)
+    stats["ir-tie:ptrtothis-checked"] = pt_checked
+    stats["ir-tie:ptrtothis-checked:defined-pointer-types"] = pt_named_ptr
+    ctx.log("tie A: PtrToThis_ of %d element types of emitted pointer descriptors (%d of them defined pointer types): %d wrong" % (pt_checked, pt_named_ptr, pt_bad))
     if not quick:
         # witness of the known compiler panic (kept out of the package above)
         wd = os.path.join(ctx.scratch, "irpanic")
@@ -758,7 +830,8 @@ def ir_tie(ctx, types_, descs, stats, corr_bad, oracle, nfixed, mshapes, modeld,
     info["runtime_readers"] = rt_info
     info["e2e"] = e2e_info
     info["descriptors_compared"] += rt_info.get("descriptors_loaded", 0) + e2e_info.get("lines_compared", 0)
-    info["spec_failures"] = rt_info.get("spec_failures", 0) + e2e_info.get("spec_failures", 0)
+    info["spec_failures"] = rt_info.get("spec_failures", 0) + e2e_info.get("spec_failures", 0) + pt_bad
+    info["ptrtothis"] = {"checked": pt_checked, "defined_pointer_types": pt_named_ptr, "wrong": pt_bad}
     return info
 
 
@@ -1026,3 +1099,134 @@ def runtime_tie(ctx, nat, types_, descs, oracle, pick, ir, irtext, modeld, envli
                                   known="reflect:fieldpkgpath:main-package-path")
     ctx.log("run-time readers: %d emitted descriptors loaded natively (%d of generated types), %d spec failures" % (loaded, sum(1 for x in meta.values() if x[1] is not None), fails))
     return {"ran": True, "descriptors_loaded": loaded, "spec_failures": fails, "header_sizes_in_ir": {k: v[0] for k, v in sizes.items()}}
+
+
+# ------------------------------------------------------------------------------------------------ field lookup of llgo's reflect (native)
+FBN_POOL = ["X", "Y", "Z", "W", "x", "Val"]
+
+
+def fbn_groups(rng, ngroups):
+    """groups of struct declarations whose embedding graphs are random DAGs (value embedding of earlier types, pointer embedding of
+    any type of the group, self included: cycles), with few field names so that one name is reachable along several paths at equal
+    and at different depths: chains, shadowing, diamonds of every depth with the field any number of levels below the join, embedded
+    non-struct named types, non-exported embedded types.  -> [(source, [type names], [name sets])]"""
+    groups = []
+    for g in range(ngroups):
+        ntypes = rng.randint(3, 9)
+        fan = rng.choice([1, 2, 2, 3, 4])
+        window = rng.choice([1, 2, 3, 8])
+        names = [("G%dT%d" if rng.random() < 0.85 else "g%dt%d") % (g, k) for k in range(ntypes)]
+        scalar = "G%dN" % g
+        src = ["type %s int" % scalar]
+        for k in range(ntypes):
+            fields, used = [], set()
+            if k > 0:
+                lo = max(0, k - window)
+                for j in rng.sample(range(lo, k), min(k - lo, rng.randint(1, fan))):
+                    fields.append(("*" if rng.random() < 0.3 else "") + names[j])
+                    used.add(names[j])
+            if rng.random() < 0.15:
+                j = rng.randrange(ntypes)                       # embedded pointer to any type of the group (cycles)
+                if names[j] not in used:
+                    fields.append("*" + names[j])
+                    used.add(names[j])
+            if rng.random() < 0.1:
+                fields.append(scalar)
+                used.add(scalar)
+            nplain = rng.choice([0, 0, 1, 1, 2]) if k > 0 else rng.randint(1, 3)
+            for nm in rng.sample(FBN_POOL, nplain):
+                fields.append("%s int" % nm)
+            if rng.random() < 0.05 and k > 0:
+                fields.append("%s int" % rng.choice(names[:k]))  # a plain field named like an embedded type further down
+                if fields[-1].split()[0] in used:
+                    fields.pop()
+            rng.shuffle(fields)
+            src.append("type %s struct{ %s }" % (names[k], "; ".join(fields)))
+        sets = [[n] for n in FBN_POOL + names + [scalar, "nope"]]
+        for _ in range(4):
+            sets.append(sorted(rng.sample(FBN_POOL + names, rng.randint(2, 3))))
+        groups.append(("\n".join(src), names, sets))
+    return groups
+
+
+def fbn_tie(ctx, stats):
+    """(*structType).FieldByNameFunc / FieldByName of runtime/internal/lib/reflect, extracted verbatim from the working tree, on
+    llgo-layout descriptors (the working tree's runtime/abi) of generated embedding graphs; judged against the reference toolchain's
+    reflect.Type.FieldByName / FieldByNameFunc on the same Go types."""
+    import shutil
+    quick = ctx.tier == "quick"
+    src_path = os.path.join(REPO, "runtime", "internal", "lib", "reflect", "type.go")
+    text = open(src_path).read()
+    parts = []
+    for rx in (r'^type fieldScan struct \{\n.*?^\}\n', r'^func \(t \*structType\) FieldByNameFunc\(.*?^\}\n', r'^func \(t \*structType\) FieldByName\(.*?^\}\n'):
+        m = re.search(rx, text, re.M | re.S)
+        if not m:
+            ctx.report_broken("reflect field lookup: cannot extract fieldScan / FieldByNameFunc / FieldByName from runtime/internal/lib/reflect/type.go", rx)
+            return {"ran": False}
+        parts.append(m.group(0))
+    d = os.path.join(ctx.scratch, "fbn")
+    os.makedirs(os.path.join(d, "abi"))
+    for f in os.listdir(os.path.join(REPO, "runtime", "abi")):
+        if f.endswith(".go") and not f.endswith("_test.go"):
+            shutil.copy(os.path.join(REPO, "runtime", "abi", f), os.path.join(d, "abi", f))
+    h = os.path.join(VERIF, "harness", "c15", "fbn")
+    shutil.copy(os.path.join(h, "go.mod.txt"), os.path.join(d, "go.mod"))
+    shutil.copy(os.path.join(h, "main.go.txt"), os.path.join(d, "main.go"))
+    shutil.copy(os.path.join(h, "shim.go.txt"), os.path.join(d, "shim.go"))
+    open(os.path.join(d, "zz_extracted.go"), "w").write('package main\n\nimport (\n\t"unsafe"\n\n\t"fbn/abi"\n)\n\nvar _ unsafe.Pointer\n\n' + "\n".join(parts))
+    # fixed shapes first (chain, shadowing, diamonds of depth 2, 3, 4 with the field 0, 1, 2 levels below the join, through pointers, a cycle)
+    fixed = ("type G0D struct{ X, Y int }\ntype G0C struct{ G0D }\ntype G0A struct{ G0C }\ntype G0B struct{ G0C }\ntype G0S3 struct{ G0A; G0B }\n"
+             "type G0C2 struct{ X int }\ntype G0A2 struct{ G0C2 }\ntype G0B2 struct{ G0C2 }\ntype G0S2 struct{ G0A2; G0B2 }\n"
+             "type G0Chain struct{ G0A; Z int }\ntype G0Shadow struct{ *G0A; X string }\n"
+             "type G0E struct{ W int }\ntype G0D4 struct{ *G0E }\ntype G0C4 struct{ G0D4 }\ntype G0A4 struct{ *G0C4 }\ntype G0B4 struct{ G0C4 }\ntype G0S4 struct{ G0A4; G0B4 }\n"
+             "type G0Loop struct{ *G0Loop; V int }\ntype G0Mix struct{ G0S3; G0C2 }\ntype G0Deep struct{ G0S3; Y int }")
+    fnames = re.findall(r'^type (\w+) ', fixed, re.M)
+    groups = [(fixed, fnames, [[n] for n in ["X", "Y", "Z", "W", "V", "nope"] + fnames] + [["X", "Y"], ["W", "Z"], ["G0C", "G0D"]])]
+    groups += fbn_groups(ctx.rng, 150 if quick else 3000)[0:]
+    # group numbers in the generated names start at 0 as well: rename the random groups' prefix so that they cannot clash with the fixed one
+    gen = ["package main\n"]
+    shapes, lookups = [], []
+    for gi, (src, names, sets) in enumerate(groups):
+        if gi > 0:
+            src = re.sub(r'\b([Gg])(\d+)([TtN])', lambda m: "%s%dx%s" % (m.group(1), gi, m.group(3)), src)
+            ren = lambda n: re.sub(r'^([Gg])(\d+)([TtN])', lambda m: "%s%dx%s" % (m.group(1), gi, m.group(3)), n)
+            names = [ren(n) for n in names]
+            sets = [[ren(n) for n in s] for s in sets]
+            groups[gi] = (src, names, sets)
+        gen.append(src + "\n")
+        for n in names:
+            shapes.append("\t{%d, %s, %s{}}," % (gi, json.dumps(n), n))
+        lookups.append("\t{" + ", ".join("{" + ", ".join(json.dumps(x) for x in s) + "}" for s in sets) + "},")
+    gen.append("var shapes = []shape{\n" + "\n".join(shapes) + "\n}\n")
+    gen.append("var lookups = [][][]string{\n" + "\n".join(lookups) + "\n}\n")
+    open(os.path.join(d, "zz_types.go"), "w").write("\n".join(gen))
+    p = sh(["go", "build", "-o", "fbn.bin", "."], cwd=d, env=go_env())
+    if p.returncode != 0:
+        ctx.log("reflect field lookup: the extracted code does not build natively:\n" + (p.stdout + p.stderr)[-2000:])
+        ctx.report_broken("reflect field lookup: verbatim copy of FieldByNameFunc/FieldByName + runtime/abi does not build against the stand-ins", (p.stdout + p.stderr)[-2000:])
+        return {"ran": False}
+    p = sh([os.path.join(d, "fbn.bin")], cwd=d, timeout=600)
+    done = re.search(r'^DONE lookups=(\d+) found=(\d+) promoted_depth3plus=(\d+) bad=(\d+)', p.stdout, re.M)
+    if p.returncode != 0 or not done:
+        ctx.report_broken("reflect field lookup: native driver failed", (p.stdout + p.stderr)[-2000:])
+        return {"ran": False}
+    bad, seen_generated = 0, False
+    for line in p.stdout.split("\n"):
+        m = re.match(r'BAD (\d+) (\S+) (\[.*?\]) go=(.*) llgo=(.*)$', line)
+        if not m:
+            continue
+        bad += 1
+        gi = int(m.group(1))
+        first_generated = gi > 0 and not seen_generated      # the fixed group comes first: show one generated shape as well
+        seen_generated = seen_generated or gi > 0
+        if bad <= 3 or first_generated:
+            go, ll = m.group(4), m.group(5)
+            cls = "ambiguous-reported-as-found" if go.startswith("(false") and ll.startswith("(true") else "found-reported-as-absent" if go.startswith("(true") and ll.startswith("(false") else "panic" if ll.startswith("panic") else "other-field"
+            ctx.report("reflect-lib:fieldbyname:%s:%s.%s" % (cls, m.group(2), m.group(3)),
+                       "llgo's reflect (runtime/internal/lib/reflect (*structType).FieldByNameFunc, run natively on llgo-layout descriptors) answers a field lookup differently from Go's reflect: (found, index, name, embedded) go=%s llgo=%s" % (go, ll),
+                       {"declarations": groups[gi][0], "type": m.group(2), "names_matched": m.group(3), "go": go, "llgo": ll, "how": "reflect.TypeOf(%s{}).FieldByName / FieldByNameFunc" % m.group(2)})
+    info = {"ran": True, "lookups": int(done.group(1)), "found": int(done.group(2)), "promoted_depth3plus": int(done.group(3)), "spec_failures": bad, "groups": len(groups), "types": len(shapes)}
+    stats["reflect-lib:fieldbyname:lookups"] = info["lookups"]
+    stats["reflect-lib:fieldbyname:found"] = info["found"]
+    ctx.log("reflect field lookup: %d lookups on %d generated struct types (%d found, %d promoted through >= 2 embeddings), %d differ from the reference reflect" % (info["lookups"], info["types"], info["found"], info["promoted_depth3plus"], bad))
+    return info
